@@ -994,3 +994,10 @@ M("c15-boundary-edges-freed-in-run-only", "C15", "cola/libcola/cola.cpp",
   "        cedges.clear();\n    } \n}", mention=["ITERATION-EDGES-FREED", "runOnce"])
 M("c11-neutral-pin-by-vertex-via-local", "C11", "cola/libavoid/connend.cpp",
   "        if (currPin->m_vertex == pinVert)\n        {\n            usePin(currPin);", "        VertInf *candidate = currPin->m_vertex;\n        if (candidate == pinVert)\n        {\n            usePin(currPin);", expect="silent")
+M("c15-neutral-alignment-table-size-test", "C15", "cola/libdialect/nearalign.cpp",
+  "    if (nodes.empty()) return;\n", "    if (nodes.size() == 0) return;\n", expect="silent")
+M("c15-neutral-topology-nodes-size-test", "C15", "cola/libtopology/cola_topology_addon.cpp",
+  "    if (generateNonOverlapConstraints && topologyNodes.empty())", "    if (generateNonOverlapConstraints && (topologyNodes.size() == 0))", expect="silent")
+MUTANTS.append({"id": "c17-neutral-majorization-parameters-renamed", "prop": "C17", "expect": "silent", "mention": [], "tu": None, "edits": [
+    {"file": "cola/libcola/cola.cpp", "old": "        EdgeLengths eLengths,\n        TestConvergence *doneTest,\n        PreIteration* preIteration,\n        bool useNeighbourStress)\n    : n(rs.size()),", "new": "        EdgeLengths givenLengths,\n        TestConvergence *doneTest,\n        PreIteration* preIteration,\n        bool useNeighbourStress)\n    : n(rs.size()),", "count": 1},
+    {"file": "cola/libcola/cola.cpp", "old": "    std::valarray<double> edgeLengths(eLengths.data(), eLengths.size());", "new": "    std::valarray<double> edgeLengths(givenLengths.data(), givenLengths.size());", "count": 1}]})
